@@ -136,6 +136,9 @@ def _one(args):
                 with open(path, encoding="utf-8") as f:
                     src = f.read()
         except OSError:
+            if e.get("old") == "" and e.get("new"):
+                overlay[e["file"]] = e["new"]       # a file the patch creates
+                continue
             return (m["name"], "stale", "file missing")
         new_src = _apply(src, e)
         if new_src is None:
